@@ -228,12 +228,15 @@ def enumerate_ics(run, tier):
     for st in parse_dump(res["dump"]):
         c = st["ic"]
         if c.get("kind") == "ic":
-            ics.append({"mode": c["mode"], "q": list(c["q"]), "off": list(c["off"]), "vel": list(c["vel"]),
-                        "rate": list(c["rate"])})
-    ics.sort(key=lambda c: (c["mode"], c["q"], c["off"], c["vel"], c["rate"]))
+            ics.append({"mode": c["mode"], "q": list(c["q"]), "yaw": list(c["yaw"]), "q0": list(c["q0"]),
+                        "off": list(c["off"]), "vel": list(c["vel"]), "rate": list(c["rate"])})
+    ics.sort(key=lambda c: (heading_deg(c) != 0, c["mode"], c["q"], c["yaw"], c["off"], c["vel"], c["rate"]))
+    dom = [c for c in ics if heading_deg(c) == 0]        # the domain the property lists (alarming)
+    bey = [c for c in ics if heading_deg(c) != 0]        # commanded heading /= 0 (reported only)
+
     # vacuity guards on the launch set
-    def has(pred):
-        return any(pred(c) for c in ics)
+    def has(pred, S=dom):
+        return any(pred(c) for c in S)
     need = {
         "both modes": all(has(lambda c, m=m: c["mode"] == m) for m in cascade.MODES),
         "negative scalar part": has(lambda c: c["q"][0] < 0),
@@ -241,19 +244,26 @@ def enumerate_ics(run, tier):
         "identity attitude": has(lambda c: c["q"][1:] == [0, 0, 0]),
         "3 m offsets": has(lambda c: max(abs(v) for v in c["off"]) == 3),
         "non-zero velocity and rate": has(lambda c: any(c["vel"]) and any(c["rate"])),
+        "commanded heading >= 90 deg in both modes (beyond-property runs)": all(
+            has(lambda c, m=m: c["mode"] == m and abs(heading_deg(c)) >= 90, bey) for m in cascade.MODES),
     }
     miss = [k for k, v in need.items() if not v]
-    if miss or len(ics) < 8:
-        raise MachineryError(f"vacuous launch lattice ({len(ics)} configurations), missing: {miss}")
-    return ics
+    if miss or len(dom) < 8:
+        raise MachineryError(f"vacuous launch lattice ({len(dom)} configurations at heading 0), missing: {miss}")
+    return dom, bey
 
 
-def simulate(run, ics, tier, workdir):
+def simulate(run, groups, tier, workdir):
+    """groups: lists of launch configurations; a trace file never mixes groups.  tids are global."""
     per = RUNS_PER_FILE[tier]
     shards = []
-    for j in range(0, len(ics), per):
-        shards.append((os.path.join(workdir, f"traces_{j // per:03d}.ndjson"),
-                       [(j + i + 1, ic) for i, ic in enumerate(ics[j:j + per])]))
+    tid = 0
+    for g, ics in enumerate(groups):
+        for j in range(0, len(ics), per):
+            part = ics[j:j + per]
+            shards.append((os.path.join(workdir, f"traces_g{g}_{j // per:03d}.ndjson"),
+                           [(tid + i + 1, ic) for i, ic in enumerate(part)]))
+            tid += len(part)
     t0 = time.time()
     res = cascade.run_shards(shards, SIM_PAR[tier])
     summ = {}
@@ -264,6 +274,19 @@ def simulate(run, ics, tier, workdir):
     return [p for p, _ in shards], summ, time.time() - t0
 
 
+def heading_deg(ic):
+    import math
+    d = round(math.degrees(2.0 * math.atan2(ic["yaw"][3], ic["yaw"][0])))
+    return ((d + 179) % 360) - 179          # (-180, 180]
+
+
+def vkey(ic, clause):
+    """heading command 0 = the script's own initial psi_sp (the property's literal domain); other commanded
+    headings are a separate cell of the key so that a finding there never masks one at heading 0"""
+    h = heading_deg(ic)
+    return f"cascade/{ic['mode']}/{clause}" + ("" if h == 0 else f"/heading={h}")
+
+
 def verdicts(run, rejects, summ):
     for tid, k, clause, path in rejects:
         s = summ.get(tid)
@@ -271,7 +294,11 @@ def verdicts(run, rejects, summ):
             raise MachineryError(f"trace {tid} rejected for a structural reason ({clause} at line {k}) -- harness defect")
         ic = s["ic"]
         ln = read_line(path, tid, k)
-        run.violation(f"cascade/{ic['mode']}/{clause}", WHAT[clause],
+        if heading_deg(ic) != 0:
+            # the property does not list the commanded heading: informational, never an alarm
+            run.spec_drift(vkey(ic, clause), "commanded heading /= 0 (outside the property's listed domain): " + WHAT[clause])
+            continue
+        run.violation(vkey(ic, clause), WHAT[clause],
                       {"ic": ic, "line": k, "t_ms": ln["t"] if ln else None, "logged": ln,
                        "summary": {a: b for a, b in s.items() if a not in ("ic", "file")}})
 
@@ -291,8 +318,10 @@ def main():
     if "--replay" in sys.argv:
         d = json.load(open(sys.argv[sys.argv.index("--replay") + 1]))
         ic = d["data"]["ic"] if "data" in d else d["ic"]
-        ic = {k: (list(v) if isinstance(v, (list, tuple)) else v) for k, v in ic.items() if k in ("mode", "q", "off", "vel", "rate")}
-        files, summ, _ = simulate(run, [ic], "quick", workdir)
+        ic = {k: (list(v) if isinstance(v, (list, tuple)) else v) for k, v in ic.items() if k in ("mode", "q", "yaw", "q0", "off", "vel", "rate")}
+        ic.setdefault("yaw", [1, 0, 0, 0])
+        ic.setdefault("q0", ic["q"])
+        files, summ, _ = simulate(run, [[ic]], "quick", workdir)
         rejects, st = validate_files(run, files, workdir, "replay")
         run.tlc.append(st)
         verdicts(run, rejects, summ)
@@ -300,8 +329,8 @@ def main():
         return run.finish({"traces_validated_against_impl": 1, "events_validated": st["lines"], "samples": [fmt(summ[1])]})
 
     if "--selftest" in sys.argv:
-        ic = {"mode": "mellinger", "q": [3, 1, 1, 1], "off": [3, -1, 0], "vel": [1, 0, -1], "rate": [0, 1, 1]}
-        files, summ, _ = simulate(run, [ic], "quick", workdir)
+        ic = {"mode": "mellinger", "q": [3, 1, 1, 1], "yaw": [1, 0, 0, 1], "q0": [2, 0, 2, 4], "off": [3, -1, 0], "vel": [1, 0, -1], "rate": [0, 1, 1]}
+        files, summ, _ = simulate(run, [[ic]], "quick", workdir)
         st = selftest(run, files[0], workdir)
         print("selftest:", json.dumps(st))
         return run.finish({"traces_validated_against_impl": 0, "selftest": st})
@@ -310,9 +339,10 @@ def main():
     res = run_tlc("Cascade.tla", "Cascade_mc.cfg", workdir=workdir, workers=2)
     run.add_tlc("Cascade[abstract, coarse clock]", res)
     # 2. launch configurations from TLC
-    ics = enumerate_ics(run, tier)
+    dom, bey = enumerate_ics(run, tier)
+    ics = dom + bey
     # 3. closed loops
-    files, summ, sim_wall = simulate(run, ics, tier, workdir)
+    files, summ, sim_wall = simulate(run, [dom, bey], tier, workdir)
     if len(summ) != len(ics):
         raise MachineryError("not every launch configuration produced a history")
     # 4. trace validation
@@ -321,16 +351,18 @@ def main():
     if st["traces"] != len(ics):
         raise MachineryError(f"TLC saw {st['traces']} histories, {len(ics)} were recorded")
     verdicts(run, rejects, summ)
-    # 5. selftest on a real history (of a file TLC accepted, if any)
+    # 5. selftest on a real history (of a file TLC accepted)
     rej_files = {p for _, _, _, p in rejects}
     okf = [f for f in files if f not in rej_files]
-    stest = selftest(run, okf[0], workdir) if okf else {"skipped": "no accepted history to corrupt"}
-    if not okf:
-        # still demand the machinery rejects corruptions: use an artificial nominal run is not possible -> note it
-        run.assumptions.append("selftest skipped: every trace file contained a rejected history")
+    if okf:
+        stest = selftest(run, okf[0], workdir)
+    else:       # nothing to corrupt: every file holds a rejected history (the verdict is a violation anyway)
+        stest = {"skipped": "every trace file contained a rejected history"}
 
-    S = list(summ.values())
-    worst = lambda key: max(S, key=lambda s: s[key])
+    rej_tids = {t: (k, c) for t, k, c, _ in rejects}
+    S = [s for s in summ.values() if heading_deg(s["ic"]) == 0]
+    B = [s for s in summ.values() if heading_deg(s["ic"]) != 0]
+    worst = lambda key, X=S: max(X, key=lambda s: s[key])[key]
     seen = set()
     for s in sorted(S, key=lambda s: -s["final_err_m"])[:2] + sorted(S, key=lambda s: s["tid"])[:: max(1, len(S) // 4)]:
         if s["tid"] not in seen:
@@ -345,24 +377,54 @@ def main():
         "2 m of the vehicle, so launches further away settle at a displaced hover point (logged as sp)",
         "hover set-point 10 m above the model's ground plane; mr_ref_traj (result discarded by the script) not called",
         "envelope constants 10 s / 25 s / 0.05 rad / 0.1 rad/s / 0.05 m from the property's wording (DESIGN.md C17)",
+        "alarming domain: commanded heading psi_sp = 0 (the script's initial value), launch attitude within 60 deg of level "
+        "(yaw component included); launches with a commanded heading /= 0 are run and validated too but only reported "
+        "(SPEC-DRIFT keys .../heading=<deg>, coverage.beyond_property): the property does not list the commanded heading",
     ]
-    acc = len(ics) - len({t for t, _, _, _ in rejects})
+
+    def group_stats(X):
+        if not X:
+            return {}
+        acc = [s for s in X if s["tid"] not in rej_tids]
+        out = {"runs": len(X), "rejected": len(X) - len(acc),
+               "worst_position_error_from_25s_m": worst("err_from_25s_m", X),
+               "worst_tilt_from_10s_rad": worst("tilt_from_10s_rad", X),
+               "worst_rate_from_10s_rad_s": worst("rate_from_10s_rad_s", X),
+               "worst_yaw_error_from_10s_rad": worst("yaw_from_10s_rad", X),
+               "max_set_point_shift_m": worst("sp_shift_m", X)}
+        if acc:
+            out["accepted_worst_position_error_from_25s_m"] = worst("err_from_25s_m", acc)
+            out["accepted_worst_tilt_from_10s_rad"] = worst("tilt_from_10s_rad", acc)
+        return out
+    by_h = {}
+    for s in B:
+        key = f"{s['ic']['mode']}/heading={heading_deg(s['ic'])}"
+        by_h.setdefault(key, []).append(s)
+    beyond = {"heading_runs": {k: group_stats(v) for k, v in sorted(by_h.items())},
+              "total": group_stats(B),
+              "rejected_examples": [dict(fmt(s), clause=rej_tids[s["tid"]][1], line=rej_tids[s["tid"]][0])
+                                    for s in B if s["tid"] in rej_tids][:6]}
+    acc = len(S) - sum(1 for s in S if s["tid"] in rej_tids)
     return run.finish({
         "traces_validated_against_impl": len(ics),
-        "histories_accepted": acc,
+        "histories_in_property_domain": len(S),
+        "histories_accepted_in_property_domain": acc,
         "events_validated": st["lines"],
         "rule": "one closed-loop history (3001 control periods) per TLC-generated launch configuration; every envelope clause "
                 "is a TLC invariant evaluated at every line",
-        "runs_per_mode": {m: sum(1 for c in ics if c["mode"] == m) for m in cascade.MODES},
-        "worst_final_position_error_m": worst("final_err_m")["final_err_m"],
-        "worst_position_error_from_25s_m": worst("err_from_25s_m")["err_from_25s_m"],
-        "worst_tilt_from_10s_rad": worst("tilt_from_10s_rad")["tilt_from_10s_rad"],
-        "worst_yaw_error_from_10s_rad": worst("yaw_from_10s_rad")["yaw_from_10s_rad"],
-        "worst_rate_from_10s_rad_s": worst("rate_from_10s_rad_s")["rate_from_10s_rad_s"],
-        "max_motor_command_over_limit": worst("max_cmd_over_lim")["max_cmd_over_lim"],
+        "runs_per_mode": {m: sum(1 for s in S if s["ic"]["mode"] == m) for m in cascade.MODES},
+        "worst_final_position_error_m": worst("final_err_m"),
+        "worst_final_tilt_rad": worst("final_tilt_rad"),
+        "worst_final_rate_rad_s": worst("final_rate_rad_s"),
+        "worst_position_error_from_25s_m": worst("err_from_25s_m"),
+        "worst_tilt_from_10s_rad": worst("tilt_from_10s_rad"),
+        "worst_yaw_error_from_10s_rad": worst("yaw_from_10s_rad"),
+        "worst_rate_from_10s_rad_s": worst("rate_from_10s_rad_s"),
+        "max_motor_command_over_limit": worst("max_cmd_over_lim"),
         "runs_reaching_motor_limit": sum(1 for s in S if s["max_cmd_over_lim"] >= 1.0),
-        "max_set_point_shift_m": worst("sp_shift_m")["sp_shift_m"],
+        "max_set_point_shift_m": worst("sp_shift_m"),
         "min_altitude_m": min(s["min_z_m"] for s in S),
+        "beyond_property": beyond,
         "constants_from_rdd2_sim": consts,
         "integration": {"scheme": "RK4", "substeps_per_period": cascade.NSUB, "control_period_s": loop.C["dt"],
                         "run_s": cascade.T_END_S},
